@@ -551,7 +551,7 @@ Definition includes_step (r : efns) (rg : vrange) (v : value) : res value :=
   | n =>
     if (match n with TF => true | _ => false end) && vnull then Ok v_false
     else if vnull then Ok v_true
-    else if negb (conforms (vty v) (rty rg)) then Ok v_false
+    else if negb (may_become_equal (vty v) (rty rg)) then Ok v_false      (* fix: commit 3ea1da3 (was: conformance in one direction) *)
     else if is_dyn (vty v) then Ok unk_not_null
     else
       match rraw rg with
@@ -616,10 +616,10 @@ Definition equals_step (r : efns) (order : list str -> list str) (a0 b0 : value)
   if negb ka && negb kb then Ok unk_not_null else
   if ka && negb kb then
     (if is_null a || has_dyn (vty b) then Ok unk_not_null
-     else if negb (ty_equals (vty a) (vty b)) then Ok v_false else Ok unk_not_null)
+     else if negb (may_become_equal (vty a) (vty b)) then Ok v_false else Ok unk_not_null)   (* fix: commit f29c1fc (was: type equality) *)
   else if kb && negb ka then
     (if is_null b || has_dyn (vty a) then Ok unk_not_null
-     else if negb (ty_equals (vty b) (vty a)) then Ok v_false else Ok unk_not_null)
+     else if negb (may_become_equal (vty b) (vty a)) then Ok v_false else Ok unk_not_null)
   else
   if is_null a && is_null b then Ok v_true else
   if is_null a || is_null b then Ok v_false else
